@@ -404,7 +404,7 @@ def run_family(name, tier, seed, work):
     rep_path = os.path.join(work, name + '.walk.json')
     t0 = time.time()
     log('[%s] E2: replaying every emitted transition on the real keepers (seed %d)' % (name, seed))
-    r = subprocess.run([VH, fam['walker'], '--edges', out, '--seed', str(seed), '--scale', fam['scale'], '--out', rep_path, '--keep', '400'],
+    r = subprocess.run([VH, fam['walker'], '--edges', out, '--seed', str(seed), '--scale', fam['scale'], '--out', rep_path, '--keep', '400'] + (['--tickscale', fam['tickscale']] if fam.get('tickscale') else []),
                        stdout=subprocess.PIPE, stderr=subprocess.STDOUT, text=True, timeout=fam['timeout'][tier] * 4)
     if r.returncode != 0:
         raise Undecided('walker failed on %s: %s' % (name, r.stdout[-3000:]))
@@ -422,7 +422,7 @@ def run_family(name, tier, seed, work):
         raise Undecided('the initial state of the model of %s differs from a fresh chain in %s' % (name, rep['mismatches'][0].get('fields')))
     if rep['unreached_states'] or rep['replayed'] == 0:
         raise Undecided('walker could not reach %d states of %s' % (rep['unreached_states'], name))
-    return dict(name=name, tlc=res, walk=rep, meta=meta, scale=fam['scale'], walker=fam['walker'])
+    return dict(name=name, tlc=res, walk=rep, meta=meta, scale=fam['scale'], walker=fam['walker'], tickscale=fam.get('tickscale'))
 
 
 def deep_diff(a, b, path=''):
@@ -511,7 +511,7 @@ def write_replay(pid, fam_result, m, seed):
     if fam_result.get('is_trace') and m.get('reset'):
         seed = m['reset']['seed']
         fam_result = dict(fam_result, scale=m['reset']['scale'], walker={'l1': 'l1-walk', 'l2': 'l2-walk', 'val': 'val-walk'}.get(fam_result.get('mod'), fam_result['walker']), meta=dict(driver=True))
-    body = dict(property=pid, family=fam_result['name'], walker=fam_result['walker'], seed=seed, scale=fam_result['scale'],
+    body = dict(property=pid, family=fam_result['name'], walker=fam_result['walker'], seed=seed, scale=fam_result['scale'], tickscale=fam_result.get('tickscale') or '1',
                 meta=fam_result['meta'], path=m.get('path') or [], event=m.get('event'), expect=dict(
                     spec_ok=m.get('spec_ok'), failed_guards=m.get('failed_guards'), fields=m.get('fields'), detail=m.get('detail')),
                 observed=dict(impl_ok=m.get('impl_ok'), impl_err=m.get('impl_err')), kind=m['kind'])
@@ -628,5 +628,5 @@ def run_property(pid, tier, seed):
 def replay(pid, path):
     build_harness()
     body = json.load(open(path))
-    r = subprocess.run([VH, body['walker'].replace('-walk', '-replay'), '--file', path])
+    r = subprocess.run([VH, body['walker'].replace('-walk', '-replay'), '--file', path, '--tickscale', str(body.get('tickscale') or '1')])
     return r.returncode
